@@ -41,6 +41,9 @@ func eachFuncBody(pk *packages.Package, visit func(name string, fd *ast.FuncDecl
 			}
 			nm := fd.Name.Name
 			if fn, ok := pk.TypesInfo.Defs[fd.Name].(*types.Func); ok {
+				if inlinedAwayNow[fn] {
+					continue // a new helper whose every call was read as part of the caller
+				}
 				nm = refName(fn) // keys survive a rename of the function
 			}
 			visit(recvTypeName(fd)+"."+nm, fd, fd.Body)
